@@ -5,6 +5,10 @@ import json, sys
 ALL = ["C%02d" % i for i in range(1, 21)]
 
 CHECKS = {
+ "C02": dict(level="exploration", design="§3 C02, §0.1 E1",
+   technique="stateless choice-sequence exploration (E1): eight full products of small grammars (runs, lines, tag leakage across cues, all 32 settings subsets, regions x 32 attribute subsets, STYLE/timestamp-map/header forms, arbitrary tag stacks) plus deviation balls (B=3 quick, B=4 thorough) over all model and rendering choice points, on the real WebVTT reader/writer, judged against an independent reference codec",
+   text="Every (model, rendering) in the products and balls is rendered and read by ReadFromWebVTT (denotation: times, identifiers, comments, regions, settings, voices, tag stacks per styled character, inline timestamps, STYLE lines, timestamp map); every representable model is written by WriteToWebVTT and decoded by the library and by an independent block-level decoder that also checks consecutive numbering and region-defined-before-use.",
+   note="Trusted: Go toolchain/stdlib, engine/ref/vtt. Voices modelled per line (the lenient reading); payload lines that look like block headers and the bare NOTE form are outside the generator."),
  "C04": dict(level="exploration", design="§3 C04, §0.1 E1",
    technique="stateless choice-sequence exploration (E1): full products of small grammars (style columns in every permutation, event columns in all 120 orders, text shapes, script-info subsets) plus the deviation ball over all model and rendering choice points, on the real SSA reader/writer, judged against an independent Format-driven reference codec",
    text="Every (model, rendering) in the products and the ball is rendered and read by ReadFromSSA (denotation comparison); every representable model is written by WriteToSSA (v4 and v4+), decoded by the library and by an independent decoder (true <=> -1), and write-read-write must be byte-identical.",
